@@ -113,9 +113,20 @@ func enumFlags(name string) Def {
 	}}
 }
 
+// quietly builds a definition with every spelling detail concrete (the doc
+// cases are about comments and attributes; digits and identifiers are the
+// business of the plain cases).
+func quietly(build func() Def) Def {
+	saved := symOn
+	symOn = false
+	d := build()
+	symOn = saved
+	return d
+}
+
 func enumDocs(name string) Def {
-	d := enumPlain(name)
-	d.Doc = " " + printable(2)
+	d := quietly(func() Def { return enumPlain(name) })
+	d.Doc = " " + printable(1)
 	d.Opts[0].Doc = " opt"
 	d.Opts[1].Depr, d.Opts[1].DeprM = true, "gone"
 	return d
@@ -182,7 +193,7 @@ func structOpStr(name string) Def {
 }
 
 func structDocs(name string) Def {
-	d := structPlain(name)
+	d := quietly(func() Def { return structPlain(name) })
 	d.BlockDoc = " block " + printable(1) + " "
 	d.Doc = " line"
 	d.Fields[0].Doc = " fd " + printable(1)
@@ -212,7 +223,7 @@ func messageOp(name string) Def {
 }
 
 func messageDocs(name string) Def {
-	d := messagePlain(name)
+	d := quietly(func() Def { return messagePlain(name) })
 	d.Doc = " m"
 	d.Fields[0].Depr, d.Fields[0].DeprM = true, "d"
 	d.Fields[1].Doc = " f"
@@ -345,6 +356,8 @@ func Case(i int) (defs []Def, docs bool) {
 	case 26:
 		return []Def{importDef("a.bop"), importDef("b/" + ident("c") + ".bop"), structPlain("S")}, false
 	case 27:
+		// four kinds in one file: structure matters here, spellings are covered by the single-kind cases
+		symOn = false
 		return []Def{structPlain("A"), messagePlain("B"), unionPlain("C"), enumPlain("D")}, false
 	case 28:
 		return []Def{constDef("go_package", "string", "\"github.com/x/y\""), structRO("S")}, false
@@ -352,8 +365,11 @@ func Case(i int) (defs []Def, docs bool) {
 		return blockDocs(), true
 	case 42:
 		// end-of-line comments after fields and after closing braces
+		symOn = false
 		st := structPlain("S")
+		symOn = true
 		st.Fields[0].Trail = " note " + printable(1)
+		symOn = false
 		st.Trail = " end of S"
 		ms := messagePlain("M")
 		ms.Fields[1].Trail = " last"
@@ -365,10 +381,13 @@ func Case(i int) (defs []Def, docs bool) {
 		return []Def{unionDocs("U")}, true
 	case 41:
 		// attributes on the first and the last element of each body
+		symOn = false
 		st := structPlain("S")
 		st.Fields[0].Depr, st.Fields[0].DeprM = true, "first"
 		ms := messagePlain("M")
+		symOn = true
 		ms.Fields[1].Depr, ms.Fields[1].DeprM = true, "last "+printable(1)
+		symOn = false
 		en := enumPlain("E")
 		en.Opts[0].Depr, en.Opts[0].DeprM = true, "a"
 		en.Opts[1].Depr, en.Opts[1].DeprM = true, "b"
